@@ -159,6 +159,7 @@ var FormatListFunc = function.New(&function.Spec{
 		for iterIdx := 0; iterIdx < iterLen; iterIdx++ {
 
 			// Construct our arguments for a single format call
+			unknownArg := false
 			for i := range fmtArgs {
 				switch {
 				case iterators[i] != nil:
@@ -173,13 +174,18 @@ var FormatListFunc = function.New(&function.Spec{
 				// If any of the arguments to this call would be unknown then
 				// this particular result is unknown, but we'll keep going
 				// to see if any other iterations can produce known values.
+				// (We must still advance the remaining iterators so that
+				// they stay in step for the following iterations.)
 				if !fmtArgs[i].IsWhollyKnown() {
 					// We require all nested values to be known because the only
 					// thing we can do for a collection/structural type is print
 					// it as JSON and that requires it to be wholly known.
-					ret = append(ret, cty.UnknownVal(cty.String).RefineNotNull())
-					continue Results
+					unknownArg = true
 				}
+			}
+			if unknownArg {
+				ret = append(ret, cty.UnknownVal(cty.String).RefineNotNull())
+				continue Results
 			}
 
 			str, err := formatFSM(fmtStr, fmtArgs)
